@@ -606,3 +606,196 @@ pub fn attrs_kind(a: &DifficultyAttributes) -> &'static str {
         DifficultyAttributes::Mania(_) => "mania",
     }
 }
+
+// ---------------------------------------------------------------------------
+// impl -> spec: record traces of real sessions for TraceGradual.tla
+
+use rand::{rngs::StdRng, Rng, SeedableRng};
+use rosu_pp::model::mode::GameMode;
+
+fn mode_of(name: &str) -> GameMode {
+    match name {
+        "osu" => GameMode::Osu,
+        "taiko" => GameMode::Taiko,
+        "catch" => GameMode::Catch,
+        _ => GameMode::Mania,
+    }
+}
+
+pub fn random_objs(rng: &mut StdRng, mode: &str, n: usize) -> Vec<AbsObj> {
+    (0..n)
+        .map(|_| {
+            let r: u32 = rng.gen_range(0..10);
+            let k = match (mode, r) {
+                ("mania", 0..=5) => "C",
+                ("mania", _) => "H",
+                (_, 0..=5) => "C",
+                (_, 6..=8) => "S",
+                _ => "P",
+            };
+            AbsObj {
+                k: k.into(),
+                rep: rng.gen_range(0..3),
+                ticks: rng.gen_range(0..3),
+                dur: rng.gen_range(0..5),
+                gap: if rng.gen_range(0..12) == 0 { rng.gen_range(1..5) } else { 0 },
+                pos: rng.gen_range(0..3),
+                snd: rng.gen_range(0..4),
+            }
+        })
+        .collect()
+}
+
+/// Unit weights of a (converted) map under `diff`, measured on the one-shot path.
+fn measure_units(mode: &str, map: &Beatmap, diff: &Difficulty) -> Option<Vec<[u32; 5]>> {
+    let calc = |i: u32| guarded(|| counts(&diff.clone().passed_objects(i).calculate(map))).ok();
+    let full = guarded(|| counts(&diff.clone().calculate(map))).ok()?;
+    if mode == "taiko" {
+        return Some(
+            map.hit_objects
+                .iter()
+                .map(|h| [u32::from(h.is_circle()), 0, 0, 0, 0])
+                .collect(),
+        );
+    }
+    let n = match mode {
+        "catch" => full[0] + full[1],
+        _ => map.hit_objects.len() as u32,
+    };
+    let mut prev = [0u32; 5];
+    let mut units = Vec::with_capacity(n as usize);
+    for i in 1..=n {
+        let c = calc(i)?;
+        let mut d = [0u32; 5];
+        for j in 0..5 {
+            d[j] = c[j].checked_sub(prev[j])?; // C14 monotone; a decrease ends the measurement
+        }
+        if mode == "mania" {
+            d[0] = 0;
+        }
+        units.push(d);
+        prev = c;
+    }
+    Some(units)
+}
+
+struct Rec {
+    lines: Vec<String>,
+    sessions: u64,
+}
+
+fn record_sessions(rec: &mut Rec, rng: &mut StdRng, mode: &str, map: &Beatmap, cfg: &Cfg, label: &str) {
+    let diff = cfg.difficulty();
+    let Some(units) = measure_units(mode, map, &diff) else {
+        rec.lines.push(json!({"ev": "reset", "api": "diff", "mode": mode, "units": [], "len": -7, "label": format!("{label}: one-shot counts not monotone or panicked")}).to_string());
+        return;
+    };
+    for api in ["diff", "perf"] {
+        let mut s = if api == "diff" {
+            Session::Diff(GradualDifficulty::new(diff.clone(), map))
+        } else {
+            Session::Perf(GradualPerformance::new(diff.clone(), map))
+        };
+        rec.sessions += 1;
+        rec.lines.push(json!({"ev": "reset", "api": api, "mode": mode, "units": units, "len": real_len(&s), "label": label}).to_string());
+        let state = score_state(rng.gen_range(0..3));
+        let mut nones = 0;
+        let mut guard = 0;
+        while nones < 2 && guard < 10_000 {
+            guard += 1;
+            let call: (String, u64) = match rng.gen_range(0..10) {
+                0..=4 if api == "diff" => ("next".into(), 0),
+                0..=6 => ("nth".into(), rng.gen_range(0..4)),
+                7..=8 => ("nth".into(), rng.gen_range(0..(units.len() as u64 / 3 + 2))),
+                _ => ("nth".into(), if rng.gen_bool(0.3) { MAXN } else { rng.gen_range(0..(units.len() as u64 + 3)) }),
+            };
+            let r = do_call(&mut s, &call, &state);
+            if let Some(p) = &r.panic {
+                rec.lines.push(json!({"ev": "call", "a": call, "some": false, "len": -9, "cnt": [0,0,0,0,0], "panic": p}).to_string());
+                break;
+            }
+            rec.lines.push(json!({"ev": "call", "a": call, "some": r.some, "len": r.len, "cnt": r.cnt}).to_string());
+            if !r.some {
+                nones += 1;
+            }
+        }
+    }
+    // std adaptors on fresh calculators
+    let k: usize = rng.gen_range(1..5);
+    for kind in ["collect", "skip", "step_by", "take", "skip_step"] {
+        let g = GradualDifficulty::new(diff.clone(), map);
+        let out: Result<Vec<[u32; 5]>, String> = guarded(|| match kind {
+            "collect" => g.map(|a| counts(&a)).collect(),
+            "skip" => g.skip(k).map(|a| counts(&a)).collect(),
+            "step_by" => g.step_by(k).map(|a| counts(&a)).collect(),
+            "take" => g.take(k).map(|a| counts(&a)).collect(),
+            _ => g.skip(k).step_by(k).map(|a| counts(&a)).collect(),
+        });
+        rec.sessions += 1;
+        match out {
+            Ok(cnts) => rec.lines.push(json!({"ev": "seq", "kind": kind, "k": k, "cnts": cnts}).to_string()),
+            Err(p) => rec.lines.push(json!({"ev": "seq", "kind": kind, "k": k, "cnts": [[9,9,9,9,9]], "panic": p}).to_string()),
+        }
+    }
+}
+
+/// `gradual-record <out.ndjson> --tier T`: fixtures (truncated), their conversions, seeded random maps.
+pub fn record_main(args: &[String]) -> i32 {
+    let out_path = &args[0];
+    let tier = args.iter().position(|a| a == "--tier").map(|i| args[i + 1].clone()).unwrap_or("quick".into());
+    let seed: u64 = std::env::var("VERIF_SEED").ok().and_then(|s| s.parse().ok()).unwrap_or(0);
+    silence_panics();
+    let mut rng = StdRng::seed_from_u64(seed ^ 0x6772_6164);
+    let mut rec = Rec { lines: Vec::new(), sessions: 0 };
+    let all_cfgs = cfgs(&tier);
+    let (fix_trunc, n_random, max_len) = if tier == "thorough" { (400, 40, 60) } else { (80, 8, 30) };
+    let fixtures = [("osu", "2785319"), ("taiko", "1028484"), ("catch", "2118524"), ("mania", "1638954")];
+    let mut maps_used = 0;
+    for (mode, id) in fixtures {
+        let path = format!("/repo/resources/{id}.osu");
+        let Ok(mut map) = Beatmap::from_path(&path) else {
+            eprintln!("cannot read fixture {path}");
+            return 2;
+        };
+        // a window of the fixture (units are measured with one one-shot run per prefix)
+        let start = rng.gen_range(0..map.hit_objects.len().saturating_sub(fix_trunc).max(1));
+        let end = (start + fix_trunc).min(map.hit_objects.len());
+        map.hit_objects = map.hit_objects[start..end].to_vec();
+        map.hit_sounds = map.hit_sounds[start..end].to_vec();
+        let targets: Vec<&str> = if mode == "osu" { vec!["osu", "taiko", "catch", "mania"] } else { vec![mode] };
+        for t in targets {
+            let ci = rng.gen_range(0..all_cfgs.len());
+            let cfg = &all_cfgs[ci];
+            let conv = match map.clone().convert(mode_of(t), &cfg.mods.into()) {
+                Ok(m) => m,
+                Err(_) => continue,
+            };
+            maps_used += 1;
+            record_sessions(&mut rec, &mut rng, t, &conv, cfg, &format!("fixture {id} [{start}..{end}] as {t} cfg {ci}"));
+        }
+    }
+    for i in 0..n_random {
+        for mode in ["osu", "taiko", "catch", "mania"] {
+            let n = rng.gen_range(0..max_len);
+            let objs = random_objs(&mut rng, mode, n);
+            let prof = profile(rng.gen_range(0..4));
+            let text = concretize(mode, &objs, &prof);
+            let Ok(map) = Beatmap::from_bytes(text.as_bytes()) else { continue };
+            let ci = rng.gen_range(0..all_cfgs.len());
+            maps_used += 1;
+            record_sessions(&mut rec, &mut rng, mode, &map, &all_cfgs[ci], &format!("random {mode} #{i} n={n} profile {} cfg {ci}", prof.id));
+            // osu maps also as converts
+            if mode == "osu" && i % 2 == 0 {
+                for t in ["taiko", "catch", "mania"] {
+                    if let Ok(conv) = map.clone().convert(mode_of(t), &all_cfgs[ci].mods.into()) {
+                        maps_used += 1;
+                        record_sessions(&mut rec, &mut rng, t, &conv, &all_cfgs[ci], &format!("random osu #{i} as {t}"));
+                    }
+                }
+            }
+        }
+    }
+    std::fs::write(out_path, rec.lines.join("\n") + "\n").unwrap();
+    println!("gradual-record: maps={} sessions={} events={}", maps_used, rec.sessions, rec.lines.len());
+    0
+}
